@@ -65,6 +65,7 @@ inductive Ev where
   | start (k : Nat)
   | lazy (k : Nat)
   | sched (task : String) (args : List Val) (delay : Option Nat) (handle : Nat)
+  | timer (d : Nat)
   deriving DecidableEq, Repr, Inhabited
 
 /-- The effects of one method call, in order. -/
@@ -129,6 +130,19 @@ structure ItemOps where
     for it; the tie theorems of min / max show the option is never `None` where it is unwrapped. -/
 def unwrapP {α} [Inhabited α] (o : Option α) : α := o.getD default
 
+/-- `Poll<T>` -/
+inductive Poll (α : Type) where
+  | ready (v : α)
+  | pending
+  deriving DecidableEq, Repr
+
+/-- an opaque future held by one of the scheduler's own futures (the task, a timer); what its polls answer is the
+    oracle `futs` of the translated `poll`; a timer made by `new_timer(d)` remembers its duration -/
+inductive Fut where
+  | opaque
+  | timer (d : Nat)
+  deriving DecidableEq, Repr
+
 /-- `observer.next(v)` -/
 def emitNext {α} [ToVal α] (_ : Obs) (v : α) : Out := [Ev.n (Notif.next (ToVal.toVal v))]
 /-- `observer.error(e)` -/
@@ -146,6 +160,8 @@ def emitStart (k : Nat) : Out := [Ev.start k]
 def emitLazy (k : Nat) : Out := [Ev.lazy k]
 /-- `scheduler.schedule(task, delay)`; `h` names the handle it returns -/
 def emitSched (t : Task) (delay : Option Nat) (h : Nat) : Out := [Ev.sched t.kind t.args delay h]
+/-- `new_timer(d)`: a timer future is created with this duration -/
+def emitTimer (d : Nat) : Out := [Ev.timer d]
 /-- a user callback without result is called (`func()` of finalize); `k` names the callback -/
 def emitCall (k : Nat) : Out := [Ev.call k]
 /-- `sub.is_closed()`: the nested subscription's answer is a parameter. -/
